@@ -764,7 +764,7 @@ pub fn run(ctx: &mut Ctx) {
     }
 
     // ---- generated cases ---------------------------------------------------------------------
-    let n_streams = ctx.n(700, 12000);
+    let n_streams = ctx.n(1500, 12000);
     for i in 0..n_streams {
         let s = gen_stream(&mut r);
         let b = s.bytes();
@@ -793,7 +793,7 @@ pub fn run(ctx: &mut Ctx) {
 
     // HPACK sequences: valid blocks from the encoder (state carried across blocks), corrupted
     // blocks, random octets
-    let n_h = ctx.n(2500, 40000);
+    let n_h = ctx.n(4000, 40000);
     let pool: Vec<Hdr> = vec![
         h(":method", "GET"), h(":method", "PUT"), h(":path", "/"), h(":path", "/a/b?c=d"), h(":scheme", "https"),
         h(":authority", "www.example.com"), h(":status", "200"), h(":status", "404"), h("accept-charset", "utf-8"),
